@@ -217,6 +217,7 @@ func vxDrawCAS(t *rapid.T, odd bool) *vxCASCase {
 		if r.Kind == "EVENT" || (want != "" && r.Kind != want) {
 			continue
 		}
+		vxPlainColumns(r)
 		c.Resp = r
 		break
 	}
